@@ -5,7 +5,9 @@ import (
 	"encoding/binary"
 	"encoding/hex"
 	"fmt"
+	"math/bits"
 	"os"
+	"sync"
 
 	"sort"
 	"strconv"
@@ -233,6 +235,7 @@ type malt struct {
 	k    uint64
 	b    bool
 	d    []byte
+	h    uint16 // histadd: height of the injected position
 }
 
 func (a malt) coq() string {
@@ -253,6 +256,8 @@ func (a malt) coq() string {
 		return "MHistDrop " + cq.N(a.k)
 	case "histset":
 		return "MHistSet " + cq.N(a.k) + " " + cq.Bytes(a.d)
+	case "histadd":
+		return fmt.Sprintf("MHistAdd %s %d%%nat %s", cq.N(a.k), a.h, cq.Bytes(a.d))
 	case "hyperentry":
 		return "MHyperEntry " + cq.N(a.k)
 	case "hyperdrop":
@@ -314,6 +319,11 @@ func applyMalt(mr *protocol.MembershipResult, a malt) {
 			}
 		}
 		mr.Hyper = entriesToMap(es)
+	case "histadd":
+		if mr.History == nil {
+			mr.History = map[string]hashing.Digest{}
+		}
+		mr.History[fmt.Sprintf("%d|%d", a.k, a.h)] = a.d
 	case "histclear":
 		mr.History = map[string]hashing.Digest{}
 	case "hyperclear":
@@ -516,6 +526,20 @@ func balloonCmd(out *cq.Out, seed uint64, tier string) {
 				if o.class == 0 && o.exists {
 					mr0 := protocol.ToMembershipResult(nil, o.proof)
 					nh, ny := len(mr0.History), len(mr0.Hyper)
+					// the event-level entry point (MembershipProof.Verify hashes the event itself): the genuine answer for d,
+					// replayed for an event that was never added, must be rejected
+					{
+						raw := rng.Bytes(12)
+						accepted := false
+						cq.Catch(func() {
+							bp := protocol.ToBalloonProof(cloneResult(mr0), hashing.NewSha256Hasher)
+							accepted = bp.Verify(raw, &balloon.Snapshot{HistoryDigest: r.snaps[qv].HistoryDigest, HyperDigest: r.snaps[cur].HyperDigest, Version: qv})
+						})
+						if accepted {
+							out.Violate("C02:false-claim:event-level-verify", fmt.Sprintf("MembershipProof.Verify accepted the answer for digest %x.. as a membership proof of a never-added event %x", d[:4], raw),
+								map[string]interface{}{"case": ci, "seed": seed, "plan": strings.Join(plan, ","), "event": hex.EncodeToString(raw), "answer_for": hex.EncodeToString(d)})
+						}
+					}
 					other := r.events[rng.Intn(len(r.events))]
 					near := sharePrefix(rng, d, []int{24, 28, 32, 64, 200, 255}[rng.Intn(6)])
 					var variants [][]malt
@@ -534,6 +558,18 @@ func balloonCmd(out *cq.Out, seed uint64, tier string) {
 						[]malt{{kind: "hyperclear"}},
 						[]malt{{kind: "exists", b: false}, {kind: "histclear"}},
 					)
+					// an injected entry for a node ON the path from the leaf to the root (a verifier must recompute those,
+					// never read them): the root itself with the authentic digest of the queried version, and an inner one
+					depth := uint16(bits.Len64(qv))
+					variants = append(variants,
+						[]malt{{kind: "histadd", k: 0, h: depth, d: r.snaps[qv].HistoryDigest}},
+						[]malt{{kind: "histadd", k: 0, h: depth, d: r.snaps[qv].HistoryDigest}, {kind: "key", d: near}},
+						[]malt{{kind: "histadd", k: 0, h: depth, d: r.snaps[qv].HistoryDigest}, {kind: "key", d: other}},
+					)
+					if depth > 1 {
+						hh := uint16(1 + rng.Intn(int(depth)-1))
+						variants = append(variants, []malt{{kind: "histadd", k: (rep >> hh) << hh, h: hh, d: rng.Bytes(32)}})
+					}
 					if nh > 0 {
 						variants = append(variants, []malt{{kind: "histentry", k: uint64(rng.Intn(nh))}}, []malt{{kind: "histdrop", k: uint64(rng.Intn(nh))}},
 							[]malt{{kind: "histset", k: uint64(rng.Intn(nh)), d: append(append([]byte{}, r.snaps[rng.Intn(len(r.snaps))].HistoryDigest...), rng.Bytes(32)...)}})
@@ -608,6 +644,48 @@ func balloonCmd(out *cq.Out, seed uint64, tier string) {
 				}
 				steps = append(steps, fmt.Sprintf("SCons %s %s %s %s %s", cq.N(s), cq.N(e), cq.N(uint64(cls)), cq.Bytes(fp), cq.N(uint64(verdict))))
 			}
+		}
+		// ---- C01 under concurrent readers (queries take the balloon's read lock and run in parallel): at the final
+		// state several goroutines query (event, version) pairs at once; every answer must verify
+		if len(r.events) >= 6 && r.addPanic == "" {
+			cur := uint64(len(r.events) - 1)
+			var wg sync.WaitGroup
+			var mu sync.Mutex
+			first := ""
+			nconc := 0
+			seeds := []uint64{rng.U64(), rng.U64(), rng.U64(), rng.U64(), rng.U64(), rng.U64()}
+			for g := 0; g < len(seeds); g++ {
+				wg.Add(1)
+				go func(g int) {
+					defer wg.Done()
+					lr := cq.NewRng(seeds[g])
+					for t := 0; t < 60; t++ {
+						ei := lr.Intn(len(r.events))
+						d := r.events[ei]
+						rep := r.last[string(d)]
+						qv := rep + uint64(lr.Intn(int(cur-rep)+1))
+						okv := -1
+						var o qObs
+						p, _ := cq.Catch(func() {
+							o = r.query(d, &qv)
+							if o.class == 0 && o.exists {
+								okv, _ = wireVerify(o.proof, nil, d, r.snaps[qv].HistoryDigest, r.snaps[cur].HyperDigest)
+							}
+						})
+						mu.Lock()
+						nconc++
+						if (p || okv != 0) && first == "" {
+							first = fmt.Sprintf("event %d (reported version %d) queried at version %d of a %d-event log while other queries run: panic=%v class=%d exists=%v verdict=%d", ei, rep, qv, len(r.events), p, o.class, o.exists, okv)
+						}
+						mu.Unlock()
+					}
+				}(g)
+			}
+			wg.Wait()
+			if first != "" {
+				out.Violate("C01:membership:concurrent-queries", first, map[string]interface{}{"case": ci, "seed": seed, "plan": strings.Join(plan, ","), "events": len(r.events)})
+			}
+			out.Count("concurrent_queries", nconc)
 		}
 		out.Count("calls", len(plan))
 		out.Count("events", len(r.events))
